@@ -1207,6 +1207,8 @@ pub fn v1_streams(tier: Tier, unit: u64) -> Vec<StreamSpec> {
         },
         exhaustive("v1-mbcr", if tier == Tier::Miri { 400 } else { mbcr_count() }),
         if tier == Tier::Miri { stream("v1-sweep-s", 200) } else { exhaustive("v1-sweep", sweep_count()) },
+        // pairs of unrelated lines with equal fingerprints, each in both orders (spec::collide)
+        exhaustive("v1-collide", if tier == Tier::Miri { 0 } else { 2 * crate::collide::v1_pairs().len() as u64 }),
     ]
 }
 
@@ -1260,6 +1262,7 @@ pub fn v1_case(stream_name: &str, idx: u64, seed: u64) -> Vec<u8> {
             token_edit2(rng.below(c))
         }
         "v1-mbcr" => mbcr(idx).into_bytes(),
+        "v1-collide" => crate::collide::v1_case(idx),
         "v1-sweep" | "v1-sweep-s" => {
             let i = if stream_name == "v1-sweep" { idx } else { rng.below(sweep_count()) };
             let fields = SWEEP_PORTS + SWEEP_OCTETS + SWEEP_GROUPS;
